@@ -64,8 +64,13 @@ HintToks(h) ==
 ExpWith(B, w) ==
   IF IsNone(w) THEN NoneG
   ELSE [k |-> "with", recursive |-> w.recursive,
+        \* SEARCH / CYCLE: PostgreSQL only, given once per WITH clause; they belong to the last CTE
         ctes |-> [i \in DOMAIN w.ctes |-> [name |-> w.ctes[i].name, cols |-> w.ctes[i].cols,
-                                           mat |-> IF B = "mysql" THEN "none" ELSE w.ctes[i].mat, q |-> Expected(B, w.ctes[i].q)]]]
+                                           mat |-> IF B = "mysql" THEN "none" ELSE w.ctes[i].mat, q |-> Expected(B, w.ctes[i].q),
+                                           search |-> IF B = "pg" /\ w.recursive /\ i = Len(w.ctes) /\ ~IsNone(w.search)
+                                                      THEN [k |-> "some", order |-> w.search.v.order, by |-> w.search.v.e.n, set |-> w.search.v.set] ELSE [k |-> "none"],
+                                           cycle |-> IF B = "pg" /\ w.recursive /\ i = Len(w.ctes) /\ ~IsNone(w.cycle)
+                                                     THEN [k |-> "some", col |-> w.cycle.v.e.n, set |-> w.cycle.v.set, using |-> w.cycle.v.using] ELSE [k |-> "none"]]]]
 
 ExpCore(B, s) ==
   LET fromT == [i \in DOMAIN s.from |-> ExpTable(B, s.from[i])]
@@ -209,4 +214,19 @@ GrammarReason(B, s, sql) ==
   ELSE LET p == ParseStmt(B, sql) IN
     IF ~p.ok THEN "rejected:" \o p.why
     ELSE LET m == Mismatch(p.v, Expected(B, s)) IN IF m = "" THEN "" ELSE "clause_differs:" \o m
+
+\* Set-valued form.  A statement whose named WINDOW clause is rejected for one of the recorded reasons is judged
+\* a second time without that clause, so that a recorded finding does not hide the rest of the statement.
+WindowWhy == {"clause_out_of_order:WINDOW_after_ORDER_LIMIT_or_lock", "clause_out_of_order:WINDOW_after_set_operation", "window_definition_not_parenthesised"}
+GrammarReasons(B, s, sql) ==
+  IF Unsupported(B, s) THEN {"?unsupported"}
+  ELSE LET p == ParseStmt(B, sql) IN
+    IF p.ok THEN (LET m == Mismatch(p.v, Expected(B, s)) IN IF m = "" THEN {} ELSE {"clause_differs:" \o m})
+    ELSE IF p.why \in WindowWhy /\ Expected(B, s).kind = "select" THEN
+      LET p2 == ParseStmtCut(B, sql)
+          x == [Expected(B, s) EXCEPT !.core.window = NoneG]
+      IN {"rejected:" \o p.why}
+         \cup (IF ~p2.ok THEN {"rejected:" \o p2.why}
+               ELSE LET m == Mismatch(p2.v, x) IN IF m = "" THEN {} ELSE {"clause_differs:" \o m})
+    ELSE {"rejected:" \o p.why}
 =============================================================================
